@@ -17,7 +17,7 @@ LEVEL = "exploration"
 RULE = (
     "Tables of eff / vdrop / ig for Converter, VLoss, LinReg, PSwitch, PMux and Rectifier "
     "(both modes): 1 vi row with 1..6 io points, or 2..5 vi rows x 2..6 io points; strictly "
-    "increasing axes (vi rows also in reversed order) whose every step is >= 1e-4 of the "
+    "increasing io axis, vi rows ascending or listed in any drawn order, whose every step is >= 1e-4 of the "
     "largest coordinate of the table (the property's own bound; 1.2e-4 generated); values in "
     "the constructor-valid range, also all-equal and sign-flipped. Queries per table: every "
     "grid point, points on grid lines, cell interiors, all 8 outside regions and far outside "
@@ -86,9 +86,11 @@ def tables(draw):
         vs = G.logf(1e-7, 1e-2).map(lambda f: f * imax)
     c = draw(vs)
     rows = [[c if const else draw(vs) for _ in range(ni)] for _ in range(nv)]
-    if nv > 1 and draw(st.integers(0, 5)) == 0:
-        vis = vis[::-1]
-        rows = rows[::-1]
+    if nv > 1 and draw(st.integers(0, 2)) == 0:
+        # vi rows need not be listed in ascending order (only io is validated)
+        perm = draw(st.permutations(list(range(nv))))
+        vis = [vis[j] for j in perm]
+        rows = [rows[j] for j in perm]
     neg = zkey != "eff" and draw(st.integers(0, 5)) == 0
     if neg and zkey == "vdrop":
         rows = [[-v for v in r] for r in rows]
